@@ -473,3 +473,247 @@ Proof.
       assert (u <> t) by (intros ->; assert (thu = th) by congruence; subst thu; congruence).
       exists u, thu. rewrite nth_error_upd_ne by auto. auto.
 Qed.
+
+(* ------------------------------------------------------------------------------------------ *)
+(* preservation, one lemma per program counter *)
+
+Definition pres (X : pc) : Prop :=
+  forall progs G T t th G' th', Inv progs (mkState G T) -> nth_error T t = Some th ->
+    tpc th = X -> tstep G (no_writer T) (no_holder T) t th = Some (G', th') ->
+    Inv progs (mkState G' (upd t th' T)).
+
+(* the bookkeeping goals of step_generic when the thread is given as a record with a known pc *)
+Ltac ev_fin := unfold inflight; simpl; rewrite ?flat_map_app; simpl;
+  rewrite ?app_nil_r, <- ?app_assoc; simpl; try reflexivity.
+Ltac ev_nil := exists (@nil event); rewrite ?app_nil_r; simpl;
+  split; [reflexivity | split; [intros ? [] | ev_fin]].
+Ltac ev_one e := exists [e]; simpl;
+  split; [reflexivity | split; [intros ? [<-|[]]; reflexivity | ev_fin]].
+Ltac lock_tac := simpl; intro; try discriminate; auto.
+Ltac own_tac := simpl; intro; try discriminate; left; auto.
+
+Ltac start :=
+  intros progs G T t th G' th' HI Ht Epc Hs;
+  destruct th as [pg pc0 pos val cp rs]; simpl in Epc; subst pc0;
+  unfold tstep in Hs; simpl in Hs;
+  pose proof (i_g _ _ HI) as Hg; simpl in Hg;
+  pose proof (i_t _ _ HI _ _ Ht) as Hti; unfold tinv in Hti; simpl in Hti;
+  pose proof (i_prog _ _ HI _ _ Ht) as [Hpo Hpr]; unfold pc_op in Hpo; simpl in Hpo, Hpr.
+
+(* G' = G, ownership unchanged *)
+Ltac same_glob HI Ht :=
+  eapply (step_generic _ _ _ _ _ _ _ HI Ht);
+  [ assumption
+  | intros; assumption
+  | unfold tinv; simpl; try exact I
+  | ev_nil
+  | unfold pc_op; simpl; split; [eauto | try reflexivity]
+  | lock_tac | lock_tac | own_tac | own_tac
+  | eapply owners_upd_keep; [apply (i_own _ _ HI) | exact Ht | simpl; intro; try discriminate; auto
+                            | simpl; intro; try discriminate; auto] ].
+
+Lemma core_eq_with_ev G e : enqs [e] = [] -> core_eq G (with_ev G e).
+Proof.
+  intro H. constructor; simpl; auto. rewrite enqs_app, H. apply app_nil_r.
+Qed.
+
+Lemma ginv_with_ev G e : ginv G -> enqs [e] = [] ->
+  spec_step (mkChan (skipn (tail G + base G) (enqs (events G))) (done G)) e
+    = Some (mkChan (skipn (tail G + base G) (enqs (events G))) (done G)) ->
+  ginv (with_ev G e).
+Proof.
+  intros Hg He Hs. apply (ginv_core_eq G); auto.
+  - apply core_eq_with_ev; auto.
+  - simpl. rewrite run_spec_app, (gi_spec _ Hg). simpl. rewrite Hs.
+    rewrite enqs_app, He, app_nil_r. reflexivity.
+  - apply Hg.
+Qed.
+
+(* an event-only step *)
+Ltac ev_glob HI Ht e :=
+  eapply (step_generic _ _ _ _ _ _ _ HI Ht);
+  [ apply ginv_with_ev; [assumption | reflexivity | ]
+  | intros; eapply tinv_core_eq; [apply core_eq_with_ev; reflexivity | eassumption]
+  | unfold tinv; simpl; try exact I
+  | ev_one e
+  | unfold pc_op; simpl; split; [eauto | try reflexivity]
+  | lock_tac | lock_tac | own_tac | own_tac
+  | eapply owners_core_eq; [apply core_eq_with_ev; reflexivity |
+      eapply owners_upd_keep; [apply (i_own _ _ HI) | exact Ht | simpl; intro; try discriminate; auto
+                              | simpl; intro; try discriminate; auto]] ].
+
+Lemma pres_S_loadhead : pres S_loadhead.
+Proof.
+  start. inversion Hs; subst; clear Hs. same_glob HI Ht. lia.
+Qed.
+
+Lemma pres_S_loop : pres S_loop.
+Proof.
+  start. destruct (done G) eqn:Hd; inversion Hs; subst; clear Hs.
+  - ev_glob HI Ht (EEnqFail t). simpl. rewrite Hd. reflexivity.
+  - same_glob HI Ht. auto.
+Qed.
+
+(* tokens only *)
+Ltac ce := constructor; reflexivity.
+Ltac core_glob HI Ht Hg :=
+  eapply (step_generic _ _ _ _ _ _ _ HI Ht);
+  [ eapply ginv_core_eq; [ | exact Hg | simpl; apply (gi_spec _ Hg) | simpl; apply Hg]; ce
+  | intros; eapply tinv_core_eq; [ | eassumption]; ce
+  | unfold tinv; simpl; try exact I
+  | ev_nil
+  | unfold pc_op; simpl; split; [eauto | try reflexivity]
+  | lock_tac | lock_tac | own_tac | own_tac
+  | eapply owners_core_eq; [ |
+      eapply owners_upd_keep; [apply (i_own _ _ HI) | exact Ht | simpl; intro; try discriminate; auto
+                              | simpl; intro; try discriminate; auto]]; ce ].
+
+Lemma pres_Idle : pres Idle.
+Proof.
+  start. destruct pg as [|o rest]; [discriminate|].
+  destruct o; [destruct (no_writer T) eqn:NW | destruct (no_writer T) eqn:NW
+              | destruct (no_holder T) eqn:NH | destruct (no_holder T) eqn:NH];
+    inversion Hs; subst; clear Hs; same_glob HI Ht.
+Qed.
+
+Lemma pres_S_chk0 : pres S_chk0.
+Proof.
+  start. destruct (done G) eqn:Hd; inversion Hs; subst; clear Hs.
+  - ev_glob HI Ht (EEnqFail t). simpl. rewrite Hd. reflexivity.
+  - same_glob HI Ht.
+Qed.
+
+Lemma pres_S_loadseq : pres S_loadseq.
+Proof.
+  start. destruct Hti as [H1 H2].
+  destruct (Nat.eqb_spec (seq_at G pos) pos) as [E|NE];
+    [|destruct (Nat.ltb_spec (seq_at G pos) pos) as [L|L]];
+    inversion Hs; subst; clear Hs; same_glob HI Ht; auto.
+Qed.
+
+Lemma pres_S_rett : pres S_rett.
+Proof.
+  start. inversion Hs; subst; clear Hs. destruct Hpo as [rest ->]. same_glob HI Ht.
+  rewrite map_app, <- app_assoc. reflexivity.
+Qed.
+
+Lemma pres_S_retf : pres S_retf.
+Proof.
+  start. inversion Hs; subst; clear Hs. destruct Hpo as [rest ->]. same_glob HI Ht.
+  rewrite map_app, <- app_assoc. reflexivity.
+Qed.
+
+Lemma pres_S_snap : pres S_snap.
+Proof.
+  start. destruct (can_extend G); inversion Hs; subst; clear Hs; same_glob HI Ht.
+Qed.
+
+Lemma pres_S_lock : pres S_lock.
+Proof.
+  start. destruct (no_holder T) eqn:NH; inversion Hs; subst; clear Hs. same_glob HI Ht.
+Qed.
+
+Lemma pres_S_unlock : pres S_unlock.
+Proof. start. inversion Hs; subst; clear Hs. same_glob HI Ht. Qed.
+
+Lemma pres_S_relock : pres S_relock.
+Proof.
+  start. destruct (no_writer T) eqn:NW; inversion Hs; subst; clear Hs. same_glob HI Ht.
+Qed.
+
+Lemma pres_S_park : pres S_park.
+Proof.
+  start. destruct (ftok G) eqn:Hf; [|destruct (fclosed G) eqn:Hc]; inversion Hs; subst; clear Hs.
+  - core_glob HI Ht Hg.
+  - same_glob HI Ht.
+Qed.
+
+Lemma pres_R_loadtail : pres R_loadtail.
+Proof. start. inversion Hs; subst; clear Hs. same_glob HI Ht. lia. Qed.
+
+Lemma pres_R_chkdone : pres R_chkdone.
+Proof.
+  start. destruct (done G) eqn:Hd; inversion Hs; subst; clear Hs; same_glob HI Ht. auto.
+Qed.
+
+Lemma pres_R_rett : pres R_rett.
+Proof.
+  start. inversion Hs; subst; clear Hs. destruct Hpo as [rest ->]. same_glob HI Ht.
+  rewrite map_app, <- app_assoc. reflexivity.
+Qed.
+
+Lemma pres_R_retf : pres R_retf.
+Proof.
+  start. inversion Hs; subst; clear Hs. destruct Hpo as [rest ->]. same_glob HI Ht.
+  rewrite map_app, <- app_assoc. reflexivity.
+Qed.
+
+Lemma pres_R_unl : pres R_unl.
+Proof. start. inversion Hs; subst; clear Hs. same_glob HI Ht. Qed.
+
+Lemma pres_R_relock : pres R_relock.
+Proof.
+  start. destruct (no_writer T) eqn:NW; inversion Hs; subst; clear Hs. same_glob HI Ht.
+Qed.
+
+Lemma pres_R_park : pres R_park.
+Proof.
+  start. destruct (etok G) eqn:Hf; [|destruct (eclosed G) eqn:Hc]; inversion Hs; subst; clear Hs.
+  - core_glob HI Ht Hg.
+  - same_glob HI Ht.
+Qed.
+
+Lemma pres_C_unlock : pres C_unlock.
+Proof.
+  start. inversion Hs; subst; clear Hs. destruct Hpo as [rest ->]. same_glob HI Ht.
+  rewrite map_app, <- app_assoc. reflexivity.
+Qed.
+
+Lemma pres_G_unlock : pres G_unlock.
+Proof.
+  start. destruct Hpo as (n & rest & ->). inversion Hs; subst; clear Hs. same_glob HI Ht.
+  rewrite map_app, <- app_assoc. reflexivity.
+Qed.
+
+Lemma pres_S_cas : pres S_cas.
+Proof.
+  start. destruct Hti as (H1 & H2 & H3).
+  destruct (Nat.eqb_spec (head G) pos) as [E|NE]; inversion Hs; subst; clear Hs.
+  - specialize (H3 eq_refl).
+    eapply (step_generic _ _ _ _ _ _ _ HI Ht).
+    + apply ginv_head_cas; auto.
+    + intros. apply frame_head_cas; auto.
+    + unfold tinv; simpl. pose proof (gi_th _ Hg). repeat split; auto; try lia.
+      rewrite enqs_app. simpl. rewrite <- (gi_nenq _ Hg). apply nth_error_app_last.
+    + ev_one (EEnq t val).
+    + unfold pc_op; simpl; split; [eauto | reflexivity].
+    + lock_tac.
+    + lock_tac.
+    + simpl. intros _. right. intros u thu Hne Hu Ou.
+      pose proof (i_t _ _ HI _ _ Hu) as Hi. unfold tinv in Hi. simpl in Hi.
+      destruct (tpc thu); simpl in Ou; try discriminate; lia.
+    + own_tac.
+    + eapply owners_head_cas; [apply (i_own _ _ HI) | exact Ht | reflexivity | reflexivity | reflexivity | reflexivity].
+  - same_glob HI Ht. lia.
+Qed.
+
+Lemma pres_R_cas : pres R_cas.
+Proof.
+  start. destruct Hti as (H1 & H3).
+  destruct (Nat.eqb_spec (tail G) pos) as [E|NE]; inversion Hs; subst; clear Hs.
+  - specialize (H3 eq_refl).
+    eapply (step_generic _ _ _ _ _ _ _ HI Ht).
+    + apply ginv_tail_cas; auto.
+    + intros. apply frame_tail_cas; auto.
+    + unfold tinv; simpl. repeat split; auto; try lia.
+    + ev_one (EDeq t (data_at G (tail G))).
+    + unfold pc_op; simpl; split; [eauto | reflexivity].
+    + lock_tac.
+    + lock_tac.
+    + own_tac.
+    + simpl. intros _. right. intros u thu Hne Hu Ou.
+      pose proof (i_t _ _ HI _ _ Hu) as Hi. unfold tinv in Hi. simpl in Hi.
+      destruct (tpc thu); simpl in Ou; try discriminate; lia.
+    + eapply owners_tail_cas; [apply (i_own _ _ HI) | exact Ht | reflexivity | reflexivity | reflexivity | reflexivity].
+  - same_glob HI Ht. lia.
+Qed.
